@@ -5,6 +5,7 @@ package ir
 
 import (
 	"fmt"
+	"math"
 )
 
 // CloneModuleForOverrides creates a deep enough copy of a module for ProcessOverrides
@@ -230,6 +231,9 @@ func evaluateGlobalExprAsFloat(module *Module, handle ExpressionHandle, resolved
 		if err != nil {
 			return 0, err
 		}
+		if !BinaryFoldableAsFloat(k.Op) {
+			return 0, fmt.Errorf("operator %d is not supported in an override initializer", k.Op)
+		}
 		return EvalBinaryFloat(k.Op, left, right), nil
 	case ExprUnary:
 		val, err := evaluateGlobalExprAsFloat(module, k.Expr, resolved)
@@ -312,9 +316,25 @@ func EvalBinaryFloat(op BinaryOperator, left, right float64) float64 {
 			return 0
 		}
 		return left / right
+	case BinaryModulo:
+		if right == 0 {
+			return 0
+		}
+		return math.Mod(left, right) // truncated, like WGSL % on integers and floats
 	default:
 		return 0
 	}
+}
+
+// BinaryFoldableAsFloat reports whether EvalBinaryFloat implements op. Bitwise operators,
+// shifts, comparisons and logical operators are not evaluated through float64 (the result
+// would be 0 of the left operand's type): expressions using them are left to the back ends.
+func BinaryFoldableAsFloat(op BinaryOperator) bool {
+	switch op {
+	case BinaryAdd, BinarySubtract, BinaryMultiply, BinaryDivide, BinaryModulo:
+		return true
+	}
+	return false
 }
 
 // EvalUnaryFloat evaluates a unary operation on a float64 value.
@@ -426,6 +446,9 @@ func rebuildFunctionExpressions(fn *Function, module *Module, overrideToConstant
 func tryConstEval(kind ExpressionKind, arena []Expression, module *Module) (ExpressionKind, bool) {
 	switch k := kind.(type) {
 	case ExprBinary:
+		if !BinaryFoldableAsFloat(k.Op) {
+			return nil, false
+		}
 		leftVal, leftLit, leftOk := arenaExprAsFloat(arena, module, k.Left)
 		rightVal, _, rightOk := arenaExprAsFloat(arena, module, k.Right)
 		if leftOk && rightOk {
@@ -814,7 +837,7 @@ func evalFuncExprAsFloat(fn *Function, module *Module, handle ExpressionHandle) 
 	case ExprBinary:
 		left, leftOk := evalFuncExprAsFloat(fn, module, k.Left)
 		right, rightOk := evalFuncExprAsFloat(fn, module, k.Right)
-		if !leftOk || !rightOk {
+		if !leftOk || !rightOk || !BinaryFoldableAsFloat(k.Op) {
 			return 0, false
 		}
 		return EvalBinaryFloat(k.Op, left, right), true
@@ -835,7 +858,7 @@ func tryConstFoldExpr(fn *Function, module *Module, idx int) (ExpressionKind, bo
 	case ExprBinary:
 		leftVal, leftLit, leftOk := exprAsLiteral(fn, module, k.Left)
 		rightVal, _, rightOk := exprAsLiteral(fn, module, k.Right)
-		if !leftOk || !rightOk {
+		if !leftOk || !rightOk || !BinaryFoldableAsFloat(k.Op) {
 			return nil, false
 		}
 		result := EvalBinaryFloat(k.Op, leftVal, rightVal)
